@@ -97,7 +97,7 @@ def gen_case(rng, idx, tier, emphasis=None):
     else:
         spec = M.gen_spec(rng)
     return {'kind': 'model', 'spec': spec, 'ext_first': rng.random() < 0.7,
-            'build_opts': {'query_zone': rng.random() < 0.3, 'interleave_model': rng.random() < 0.3,
+            'build_opts': {'query_zone': rng.random() < 0.3, 'interleave_model': rng.random() < 0.5,
                            'region_default_currency': rng.random() < 0.4}}
 
 
